@@ -52,6 +52,8 @@ type Store struct {
 	// BlockDead: storage calls of a dead incarnation never return (instead of failing)
 	BlockDead bool
 	OnDie  func(inc, atCall int)
+	// CloseErr: Close of every client reports this error (a storage extension that fails to close)
+	CloseErr error
 }
 
 func NewStore() *Store { return &Store{data: map[string][]byte{}} }
@@ -240,7 +242,7 @@ func (c *client) Batch(_ context.Context, ops ...*storage.Operation) error {
 	return c.s.apply(c.inc, ops)
 }
 
-func (c *client) Close(context.Context) error { return nil }
+func (c *client) Close(context.Context) error { return c.s.CloseErr }
 
 // Ext is the storage extension handed to the exporter through the host.
 type Ext struct {
